@@ -1,8 +1,11 @@
 package main
 
 import (
+	"encoding/json"
 	"fmt"
+	"github.com/formancehq/ledger/xverif/lib/recbackend"
 	"math/big"
+	"net/http/httptest"
 	"strings"
 	"sync/atomic"
 
@@ -74,7 +77,14 @@ func c10() int {
 		for _, ba := range bals {
 			for _, bb := range bals {
 				for _, later := range laters {
-					for _, force := range []bool{false, true} {
+					for _, fe := range []struct {
+						force bool
+						entry string
+					}{{false, "commander"}, {true, "commander"}, {false, "v2"}, {true, "v2"}, {false, "v1"}, {true, "v1"}, {false, "v2-force-false"}, {false, "v2-force-garbage"}} {
+						force, entry := fe.force, fe.entry
+						if entry != "commander" && (li%4 != 0 && len(orig) < 3) {
+							continue // the HTTP entries are exercised on every fourth short list and on all long ones
+						}
 						st := seedBalances(ba, bb)
 						eng := engineh.Start(st, nil)
 						tx, err := eng.Cmd.CreateTransaction(eng.Ctx(), command.Parameters{}, ledger.TxToScriptData(ledger.TransactionData{Postings: orig}, false))
@@ -93,11 +103,11 @@ func c10() int {
 						}
 						atomic.AddInt64(&states, 1)
 						logsBefore := st.Len()
-						replay := map[string]interface{}{"engine": "revertseq", "original": fmt.Sprint(orig), "balance_a": ba.String(), "balance_b": bb.String(), "later": later.name, "force": force}
+						replay := map[string]interface{}{"engine": "revertseq", "original": fmt.Sprint(orig), "balance_a": ba.String(), "balance_b": bb.String(), "later": later.name, "force": force, "entry": entry}
 						viol := func(kind, why string) {
-							rep.Violation(kind+":"+c09Shape(orig)+"/"+later.name, fmt.Sprintf("%s [original %v, a=%s b=%s, then %s, force=%v]", why, orig, ba, bb, later.name, force), replay)
+							rep.Violation(kind+":"+c09Shape(orig)+"/"+later.name, fmt.Sprintf("%s [original %v, a=%s b=%s, then %s, force=%v, via %s]", why, orig, ba, bb, later.name, force, entry), replay)
 						}
-						rtx, rerr := eng.Cmd.RevertTransaction(eng.Ctx(), command.Parameters{}, tx.ID, force)
+						rtx, rerr := c10Revert(eng, entry, tx.ID, force, st)
 						atomic.AddInt64(&transitions, 1)
 						// would the exact inverse overdraw somebody? (log-order replay of the inverse on the current balances)
 						cur := memstore.Fold(st.Snapshot()[:logsBefore])
@@ -191,4 +201,59 @@ func inversePostings(ps ledger.Postings) ledger.Postings {
 		out = append(out, ledger.Posting{Source: ps[i].Destination, Destination: ps[i].Source, Asset: ps[i].Asset, Amount: ps[i].Amount})
 	}
 	return out
+}
+
+// c10Revert reverts through the engine API or through the HTTP endpoint that a client uses (v1: disableChecks, v2: force)
+func c10Revert(eng *engineh.Engine, entry string, id *big.Int, force bool, st *memstore.Store) (*ledger.Transaction, error) {
+	if entry == "commander" {
+		return eng.Cmd.RevertTransaction(eng.Ctx(), command.Parameters{}, id, force)
+	}
+	b := recbackend.New("l1")
+	b.Ledgers["l1"].W = eng.Cmd
+	target := "/api/ledger/v2/l1/transactions/" + id.String() + "/revert"
+	switch entry {
+	case "v1":
+		target = "/api/ledger/l1/transactions/" + id.String() + "/revert"
+		if force {
+			target += "?disableChecks=true"
+		}
+	case "v2":
+		if force {
+			target += "?force=true"
+		}
+	case "v2-force-false":
+		target += "?force=false"
+	case "v2-force-garbage":
+		target += "?force=no&forced=true&disableChecks=true"
+	}
+	before := st.Len()
+	req := httptest.NewRequest("POST", target, nil).WithContext(eng.Ctx())
+	w := httptest.NewRecorder()
+	newRouter(b, false).ServeHTTP(w, req)
+	if w.Code >= 300 {
+		return nil, fmt.Errorf("http %d: %s", w.Code, strings.TrimSpace(w.Body.String()))
+	}
+	logs := st.Snapshot()
+	if len(logs) == before {
+		return nil, fmt.Errorf("http %d but nothing was appended", w.Code)
+	}
+	if p, ok := logs[len(logs)-1].Data.(ledger.RevertedTransactionLogPayload); ok {
+		// what the client is told must be the reverting transaction that was persisted
+		var body struct {
+			Data struct {
+				ID   *big.Int `json:"id"`
+				TxID *big.Int `json:"txid"`
+			} `json:"data"`
+		}
+		_ = json.Unmarshal(w.Body.Bytes(), &body)
+		got := body.Data.ID
+		if got == nil {
+			got = body.Data.TxID
+		}
+		if got == nil || got.Cmp(p.RevertTransaction.ID) != 0 {
+			return nil, fmt.Errorf("the response names transaction %v, the persisted reverting transaction is %s", got, p.RevertTransaction.ID)
+		}
+		return p.RevertTransaction, nil
+	}
+	return nil, fmt.Errorf("http %d but the appended entry is not a revert", w.Code)
 }
